@@ -6,7 +6,8 @@ From Coq Require Import ZArith NArith Reals List String Bool.
 From Flocq Require Import Core BinarySingleNaN.
 From SV Require Import Num.Mod360 Num.Mod360Proofs Num.AngleSites Num.AngleSitesProofs
                        Num.Dec6 Num.Dec6Proofs Num.Dec6CarveProofs Num.VecText Num.VecTextProofs Num.Mod360Id Num.VecTextFloat SM.FrozenOps SM.FrozenOpsProofs SM.FrozenCopy SM.FrozenCopyProofs
-                       SM.FrozenCopyValue SM.FrozenCopyValueProofs Num.AngleText Num.AngleTextProofs.
+                       SM.FrozenCopyValue SM.FrozenCopyValueProofs Num.AngleText Num.AngleTextProofs
+                       Num.AngleCtor Num.AngleCtorProofs.
 Import ListNotations.
 
 (** ------------------------------------------------------------------ (a) range *)
@@ -36,6 +37,28 @@ Theorem c05_single_site_refuted :
   exists es, finite_inputs es /\
     exists x, In x (AngleSites.run [("_to_angle"%string, Single360)] es []) /\ B2R x = 360%R.
 Proof. exact single_site_refuted. Qed.
+
+(** Constructors by ARGUMENT FORM (round 4).  For every dispatch table read off Angle.__init__ / FrozenAngle.__new__
+    that passes [ctor_table_ok]: whatever the first argument is - a number, an object of the class, an angle of the
+    twin class, a Vec, a FrozenVec, any other iterable - and whatever finite floats it supplies (in range when they
+    are the slots of an angle), each constructor has a path for that form and the object that path hands out has
+    three finite slots in [0, 360). *)
+Theorem c05_ctor_range : forall ctors rows, ctor_table_ok ctors rows = true ->
+  forall c, In c ctors -> forall f v, supplied_ok f v ->
+    (exists a, In (c, f, a) rows) /\
+    (forall a, In (c, f, a) rows -> exists s, ctor_eval a v = Some s /\ in_range3 s).
+Proof. exact ctor_range. Qed.
+
+(** A fast path that stores the components of a Vec argument as they are (seeded fault c05_6) fails the table check,
+    the offending row is named, and FrozenAngle(Vec(-90, 0, 0)) holds -90. *)
+Theorem c05_ctor_vec_copy_refuted :
+  let rows := [("FrozenAngle.__new__"%string, FVec, AStores Other Other Other)] in
+  ctor_table_ok ["FrozenAngle.__new__"%string] rows = false /\
+  bad_ctor_rows rows = [("FrozenAngle.__new__"%string, FVec)] /\
+  supplied_ok FVec (neg90, B754_zero false, B754_zero false) /\
+  exists s, ctor_eval (AStores Other Other Other) (neg90, B754_zero false, B754_zero false) = Some s /\
+            (B2R (fst (fst s)) = -90)%R.
+Proof. exact ctor_vec_copy_refuted. Qed.
 
 (** ------------------------------------------------------------------ (b) frozen values, copies *)
 
